@@ -32,8 +32,14 @@ func H_C03_Clearing() {
 	sp := aSpec{id: 0, batch: true, status: types.AuctionStatusStarted, auctioneer: 0, nBids: nBids,
 		nSched: 0, nEnd: 1, nUsers: nUsers, allowAll: true, hasMatchedLen: false}
 	st := buildAuction(e, "a.", sp)
-	setAuctionSeq(e, 1)
+	setAuctionSeq(e, 2)
 	offered := nd.ZInt(st.offered())
+	// the same accounts may be on the allow-list of a later auction with other caps: they must not matter here
+	if nd.Pick("laterAuctionAllowList", 2) == 1 {
+		for u := 1; u <= nUsers; u++ {
+			setAllowed(e, 1, user(u), posInt("b.cap"+itoa(u)))
+		}
+	}
 
 	mInfo, err := e.K.CalculateBatchAllocation(e.Ctx, st.auction())
 	nd.Assert("C03.no-error", err == nil)
@@ -126,6 +132,7 @@ func H_C03_Clearing() {
 		}
 		ga := nd.ZInt(alloc)
 		nd.Assert("C03.allocation-is-capped-demand", ga.EQ(nd.IteZ(nothingSold, nd.ZOf(0), wantAlloc[u])))
+		nd.Assert("C19.allocation-independent-of-other-auctions-allow-lists", ga.EQ(nd.IteZ(nothingSold, nd.ZOf(0), wantAlloc[u])))
 		nd.Assert("C03.nothing-sold-refunds-everything", nd.Implies(nothingSold, nd.ZInt(refund).EQ(reserved)))
 		// ---- C05: caps ----
 		nd.Assert("C05.batch-allocation-within-cap", ga.LE(nd.ZInt(st.caps[u])))
